@@ -150,6 +150,12 @@ func corpus(g *gen) {
 		each(cfgSpec{epQ: L("a"), bes: []beSpec{{static: st}, {static: st, q: L("a")}}},
 			reqSpec{query: P("a", "//v//")})
 	}
+	// gateway-owned names sent by the client and NOT listed: the backend gets the gateway's values
+	// (the Host addressed, the gateway's agent string), never the client's
+	each(cfgSpec{epH: L("X-A"), bes: []beSpec{{}, {h: L("X-Forwarded-Host", "User-Agent", "X-Forwarded-Via")}}},
+		reqSpec{lines: P("X-Forwarded-Host", "evil.example", "User-Agent", "curl/8", "X-Forwarded-Via", "proxy-1", "X-A", "1"), host: "gw.example:8080"},
+		reqSpec{lines: P("x-forwarded-host", "evil.example")})
+	each(cfgSpec{bes: []beSpec{{}}}, reqSpec{lines: P("X-Forwarded-Host", "evil.example", "X-Forwarded-Via", "proxy-1")})
 	// static query shares a key with a forwarded parameter; reserved characters; empty values
 	each(cfgSpec{epQ: L("a", "k&=", "e"), bes: []beSpec{{static: "a=0&s=x+y&a=%26"}}},
 		reqSpec{query: P("a", "1", "k&=", "v&=?#", "e", "", "e", "", "a", " 2")})
